@@ -34,6 +34,15 @@ class Cube(Obj):
             m = Mat([[cell[idx[2]] for cell in row[idx[1]]] for row in self.data[idx[0]]])
             m.frozen = True
             return m
+        if isinstance(idx, tuple) and len(idx) in (2, 3) and isinstance(idx[0], Vec) and isinstance(idx[1], Vec) \
+                and len(idx[0].vals) == len(idx[1].vals):
+            # integer-array ("fancy") indexing: one item per (i, j) pair
+            out = []
+            for i, j in zip(idx[0].vals, idx[1].vals):
+                if not (isinstance(i, int) and isinstance(j, int) and 0 <= i < self.n and 0 <= j < self.m):
+                    raise Unsupported(f"cube index {idx!r}", node)
+                out.append(self.data[i][j][idx[2]] if len(idx) == 3 and isinstance(idx[2], int) else list(self.data[i][j]))
+            return Vec(out) if len(idx) == 3 else Mat(out)
         if isinstance(idx, tuple) and len(idx) == 3 and idx[0] == "ix_":
             rows, cols = idx[1], idx[2]
             for i in rows:
